@@ -134,12 +134,21 @@ class Ctx:
     def build_harness(self, cmds=("unit-verif",)):
         """(Re)build harness commands from /repo's working tree with -tags verif."""
         bindir = self.sub("bin")
-        shutil.copyfile(os.path.join(REPO, "go.sum"), os.path.join(HARNESS, "go.sum"))
+        hdir = HARNESS
+        if REPO != "/repo":
+            # trying the checks on a copy of the repository (seeded changes, several at a time): the harness module is
+            # copied next to it with its replace directive pointing at that copy; the registered commands never do this
+            hdir = os.path.join(self.scratch, "harness-src")
+            if not os.path.isdir(hdir):
+                shutil.copytree(HARNESS, hdir)
+                gm = open(os.path.join(hdir, "go.mod")).read().replace("=> /repo", "=> " + REPO)
+                open(os.path.join(hdir, "go.mod"), "w").write(gm)
+        shutil.copyfile(os.path.join(REPO, "go.sum"), os.path.join(hdir, "go.sum"))
         for c in cmds:
             t = time.time()
             p = subprocess.run(
                 ["go", "build", "-tags", "verif", "-o", os.path.join(bindir, c), "./cmd/" + c],
-                cwd=HARNESS, env=go_env(), stdout=subprocess.PIPE, stderr=subprocess.STDOUT, text=True)
+                cwd=hdir, env=go_env(), stdout=subprocess.PIPE, stderr=subprocess.STDOUT, text=True)
             if p.returncode != 0:
                 print(p.stdout)
                 raise Inconclusive("harness build failed for %s" % c)
